@@ -14,6 +14,7 @@ RULE = ('programs = parents {none, group_by, roll x4, split, time_split(closing)
         'reference interpreter produces for that item (exact order; multiset when an overlapping roll hands one item to '
         'several windows, an order no property fixes), and again at completion. Non-trivial = program with a window/group '
         'parent and an input of >= 2 items; states = distinct (program, outputs-so-far) observations per step.')
+DEEP_PROBES = ('group_by > roll over the whole 6x6 grid with three alternating keys; batch(300), roll(300,300), roll(260,130) step by step; split on equal-but-not-identical predicate values')
 ASSUMPTIONS = ['zip/combine_latest over a branch that contains an overlapping roll is excluded (unspecified delivery order '
                'would become visible in tuple values)',
                'multiplexed mode; plain mode only for pipelines without take/first (which complete a plain observable early)']
